@@ -15,17 +15,17 @@ import (
 )
 
 type Options struct {
-	Repo, Verif string
-	Out         string
-	Property    string
-	Tier        string
-	Seed        int64
-	Funcs       string // debug: only these functions (comma separated, short names)
-	KeepSMT     string
-	Verbose     bool
-	NoReplay    bool
-	AllProps    bool
-	Dump        bool
+	Repo, Verif   string
+	Out           string
+	Property      string
+	Tier          string
+	Seed          int64
+	Funcs         string // debug: only these functions (comma separated, short names)
+	KeepSMT       string
+	Verbose       bool
+	NoReplay      bool
+	AllProps      bool
+	Dump          bool
 	WriteBaseline bool
 }
 
@@ -230,7 +230,12 @@ func runProperty(o *Options, pc *PropertyConfig) int {
 		}
 		for _, ob := range ex.obls {
 			if hasProp(ob.Props, "slow") && o.Tier != "thorough" {
-				continue // clauses tagged slow are discharged in the thorough tier only (never claimed by the quick check)
+				// clauses tagged slow are discharged in the thorough tier only; the quick tier uses them
+				// (callee postconditions, loop invariants) without checking them, which is reported
+				if hasProp(ob.Props, o.Property) {
+					assumptions["clause checked by the thorough tier only, assumed by this run: "+strings.SplitN(ob.Name, "@", 2)[0]] = true
+				}
+				continue
 			}
 			if hasProp(ob.Props, o.Property) || ob.Kind == "vacuity" {
 				ob.Name = ob.Name + archSuffix(pc, arch)
@@ -532,6 +537,31 @@ func runProperty(o *Options, pc *PropertyConfig) int {
 		}
 	}
 	sort.Strings(dropped)
+	// a clause-named obligation (ensures / step / invariant) of the accepted baseline that is no longer
+	// even generated: the clause stopped being checked (e.g. a local it names vanished), which is a lost proof
+	for _, name := range dropped {
+		if !(strings.Contains(name, "#ensures:") || strings.Contains(name, "#step:") || strings.Contains(name, "#enter:") || strings.Contains(name, "#invariant:")) {
+			continue
+		}
+		fnName := strings.SplitN(name, "#", 2)[0]
+		reported := false
+		for _, v := range violations {
+			if strings.HasPrefix(v.Obligation, fnName+"#") {
+				reported = true
+			}
+		}
+		if reported {
+			continue
+		}
+		dir := filepath.Join(o.Out, "replays", o.Property)
+		os.MkdirAll(dir, 0o755)
+		path := filepath.Join(dir, smtIdent(name)+"_not_generated.json")
+		data, _ := json.MarshalIndent(map[string]interface{}{"property": o.Property, "obligation": name, "status": "obligation discharged on the accepted baseline is no longer generated from the current source", "reproduced": false}, "", " ")
+		os.WriteFile(path, data, 0o644)
+		violations = append(violations, Violation{Obligation: name + "(no longer generated)", Status: "undecidable", ReplayPath: path})
+		fmt.Printf("VIOLATION property=%s replay=%s obligation=%s(no-longer-generated) no-failing-input-found\n", o.Property, path, name)
+		exitCode = 1
+	}
 	if len(dropped) > 0 {
 		issues = append(issues, fmt.Sprintf("obligation count dropped: %d baseline obligations were not generated in this run (first: %s)", len(dropped), dropped[0]))
 		fmt.Printf("NOTE %s\n", issues[len(issues)-1])
